@@ -91,6 +91,8 @@ def event(rows, ids, cid, variant, seed, big=False):
         ths = [G.thr(t) for t in t2]
     df = pd.DataFrame({"g1": ["_".join(r[0]) for r in rows], "g2": ["_".join(r[1]) for r in rows],
                        "lab": [r[2] for r in rows], "score": scores})
+    if (cid + v) % 2:
+        df = df[["score", "g2", "lab", "g1"]]                  # column order of the frame differs from group_columns
     cols = (["g1", "g2"] if ncols == 2 else ["g1"]) if as_list else "g1"
     # the frame's row labels: default 0..n-1, the same rows in another order (labels travel with the
     # rows), or arbitrary labels
@@ -111,7 +113,11 @@ def event(rows, ids, cid, variant, seed, big=False):
             nb_samples=5, bootstrap_method=method,
             sampling_method=(lambda s: s) if boot == "identity" else ["replacement", "dynamic"][cid % 2],
             stratified_sampling=None if boot == "identity" else [None, "by_group"][cid % 2])
-    with warnings.catch_warnings():
+    # some callers run NumPy with floating-point errors raised instead of warned about (bootstrap off:
+    # the bootstrap machinery divides by zero on purpose and relies on the warning mode)
+    strict = boot == "none" and (cid + v) % 3 == 0
+    e["strict_errstate"] = strict
+    with warnings.catch_warnings(), np.errstate(**({"all": "raise"} if strict else {})):
         warnings.simplefilter("ignore")
         try:
             np.random.seed(seed + cid)
